@@ -8,4 +8,5 @@ INVARIANT DoneFraming
 INVARIANT DoneCounts
 INVARIANT DoneGroupSizes
 INVARIANT DoneStrings
+INVARIANT DoneLists
 CHECK_DEADLOCK FALSE
